@@ -62,6 +62,14 @@ def generate(rng, tier, seed):
         # a source that never terminates is unsubscribed in the end (debounce and sample poll for as long as they are subscribed)
         stop = [["u", ["sleep", sum(gaps) + 3 * d + 1], ["unsub", 0]]] if not end else []
         cases.append(dict(meta, scn=hot(["op", "delay", [d], ["hot", 0]], emit, sched), kind="delay"))
+        # a period that is not a whole number of milliseconds (microseconds: 250 us .. 2.5 ms)
+        dus = rng.choice([250, 900, 1500, 2500])
+        cases.append({"scn": hot(["op", "delay_us", [dus], ["hot", 0]], emit, sched), "kind": "delay-us", "d": d, "dus": dus, "end": end[0] if end else None})
+        # timeout driven by the SYNCHRONOUS default scheduler: the deadline runs on the emitting thread inside the item's next();
+        # the first item passes, exactly d later TimedOut is delivered, whatever the source does afterwards is ignored
+        g0 = rng.choice([1, 2, d])
+        cases.append({"scn": hot(["op", "timeout_sync", [d], ["hot", 0]], [["sleep", g0], ["next", 0, 10], ["next", 0, 20], ["complete", 0]], sched),
+                      "kind": "timeout-sync", "d": d, "g0": g0})
         cases.append(dict(meta, scn=hot(["op", "timeout", [d], ["hot", 0]], emit, sched), kind="timeout"))
         cases.append(dict(meta, scn=hot(["op", "debounce", [d], ["hot", 0]], emit, sched, extra_threads=stop), kind="debounce"))
         # a consumer that takes time inside its i-th callback: the deadline of an item runs from the moment the consumer is done with it
@@ -152,6 +160,18 @@ def judge_one(case, ob):
             bad.append("delay(%d ms): delivered %s, expected each item %d ms after its next() began: %s" % (case["d"], items, case["d"], want))
         if case["end"] and [e[0] for _, e in terms] != [case["end"][0]]:
             bad.append("delay: terminals %s, source ended with %s" % (terms, case["end"]))
+    elif kind == "delay-us":
+        nexts = calls.get("next", [])
+        want = [(t + case["dus"] * 1000, int(a[2])) for t, a in nexts]
+        if items != want:
+            bad.append("delay(%d us): delivered %s, expected each item %d us after its next() began: %s" % (case["dus"], items, case["dus"], want))
+        if case["end"] and [e[0] for _, e in terms] != [case["end"][0]]:
+            bad.append("delay: terminals %s, source ended with %s" % (terms, case["end"]))
+    elif kind == "timeout-sync":
+        t0 = case["g0"] * MS
+        if items != [(t0, 10)] or [(t, e[0], str(e[1]) if len(e) > 1 else "") for t, e in terms] != [(t0 + d, "e", "9999")]:
+            bad.append("timeout(%d ms, default scheduler): one item at %d ms and no successor within the period: expected it at %d ms and TimedOut at %d ms, got items %s terminals %s" % (
+                case["d"], case["g0"], case["g0"], case["g0"] + case["d"], items, terms))
     elif kind == "timeout":
         nexts = [(t, int(a[2])) for t, a in calls.get("next", [])]
         endt = [t for nm in ("complete", "error") for t, _ in calls.get(nm, [])]
